@@ -262,6 +262,8 @@ func (v *Verifier) resetRun() {
 	v.preamble = ""
 	v.ringFacts = map[string]bool{}
 	v.globals = map[*ssa.Global]*Object{}
+	v.opaqueGlobals = map[*ssa.Global]*Object{}
+	v.globalArrLen = map[*Object]int64{}
 	v.sentinels = map[*ssa.Global]*Object{}
 	v.sentinelVal = map[*ssa.Global]Value{}
 	v.globalInit = map[*ssa.Global]Value{}
@@ -299,6 +301,11 @@ func (v *Verifier) findFunc(pkg *ssa.Package, name string) *ssa.Function {
 func (v *Verifier) VerifyFunc(pkg *ssa.Package, c *Contract, pool *Pool) (res *FuncResult) {
 	rel := strings.TrimPrefix(pkg.Pkg.Path(), "github.com/consensys/gnark-crypto/")
 	res = &FuncResult{Func: rel + "." + c.Func, Layer: c.Layer, Tags: v.tags}
+	if strings.HasPrefix(c.Func, "(") {
+		res.Status = "assumed"
+		res.Reason = "interface method contract: " + c.Assumed
+		return
+	}
 	fn := v.findFunc(pkg, c.Func)
 	if fn == nil {
 		res.Status = "missing"
@@ -373,6 +380,10 @@ func (v *Verifier) layerKeyOf(pkg *ssa.Package, c *Contract) string {
 	f := strings.Fields(c.Layer)
 	var ks []string
 	for _, tn := range f[1:] {
+		if tn == "ring" || tn == "opaque" {
+			ks = append(ks, "|"+tn)
+			continue
+		}
 		if pkg == nil {
 			ks = append(ks, tn)
 			continue
@@ -397,18 +408,38 @@ func (v *Verifier) setupLayer(pkg *ssa.Package, c *Contract) {
 		return
 	}
 	f := strings.Fields(c.Layer)
-	if f[0] != "ring" {
+	if f[0] != "ring" && f[0] != "opaque" {
 		unsup("unknown layer %q", c.Layer)
 	}
 	v.abstractProducts = false
-	for _, tn := range f[1:] {
+	kind := f[0]
+	for _, tn := range f {
+		if tn == "ring" || tn == "opaque" {
+			kind = tn
+			continue
+		}
 		t := v.resolveType(pkg, tn)
 		if t == nil {
 			unsup("layer: cannot resolve type %q", tn)
 		}
-		v.abstract[typeKey(t)] = "ring"
+		if kind == "ring" {
+			v.abstract[typeKey(t)] = "ring"
+		} else {
+			v.abstract[typeKey(t)] = "opaque:" + sanitize(strings.ReplaceAll(tn, ".", "_"))
+		}
 	}
 }
+
+// abstractSort: SInt for ring elements, an uninterpreted sort for opaque types.
+func (v *Verifier) abstractSort(t types.Type) *Sort {
+	k := v.abstract[typeKey(t)]
+	if strings.HasPrefix(k, "opaque:") {
+		return mkSort("O_" + k[len("opaque:"):])
+	}
+	return SInt
+}
+
+func (v *Verifier) isRing(t types.Type) bool { return v.abstract[typeKey(t)] == "ring" }
 
 func (v *Verifier) resolveType(pkg *ssa.Package, name string) types.Type {
 	if i := strings.Index(name, "."); i >= 0 {
@@ -433,6 +464,16 @@ func (v *Verifier) runPartition(pkg *ssa.Package, fn *ssa.Function, c *Contract,
 	v.setupLayer(pkg, c)
 	F := v.F
 	F.Distribute = c.Layer == "" || c.Options["distribute"] != ""
+	v.preamble = ""
+	v.noMerge = c.Options["nomerge"] != ""
+	v.strictSliceLen = c.Options["strict-slice-len"] != ""
+	v.smtFuncs = map[string]*Sort{}
+	if len(c.SMT) > 0 {
+		v.preamble = strings.Join(c.SMT, "\n") + "\n"
+		for n, s := range c.SMTFuns {
+			v.smtFuncs[n] = mkSort(s)
+		}
+	}
 	if c.Options["noabstract"] != "" {
 		v.abstractProducts = false
 	}
